@@ -107,6 +107,8 @@ type RunResult struct {
 	WallS        float64                `json:"wall_s"`
 	Steps        int                    `json:"steps"`
 	CacheHits    int                    `json:"query_cache_hits"`
+	RaceQueries  int                    `json:"race_queries"`
+	RaceUnsat    int                    `json:"race_queries_unsat"`
 	Samples      []string               `json:"samples"`
 	Notes        []string               `json:"notes,omitempty"`
 	Outputs      []string               `json:"-"` // concrete-mode outcome lines
@@ -150,6 +152,9 @@ type Engine struct {
 	curFn     []*ssa.Function
 	threads   *threadState
 	spec      bool
+	race      *raceRec
+	pos       token.Pos
+	raceAtomic bool
 	allocLimit int
 	qcache    map[string]SatResult
 	lastCheck SatResult
@@ -424,6 +429,8 @@ func (e *Engine) resetPath() {
 	e.goInline = false
 	e.curFn = e.curFn[:0]
 	e.threads = nil
+	e.race = nil
+	e.raceAtomic = false
 	e.allocLimit = 0
 	e.tt.nfresh = 0
 }
